@@ -52,6 +52,10 @@ pub struct SessCfg {
     pub journal: bool,
     /// foreign images: diagnostics present before the first call (legal residue) are not held against the crate
     pub tolerate_baseline_diags: bool,
+    /// the device refuses every write (read-only medium)
+    pub fail_writes: bool,
+    /// record an observation trace (C19)
+    pub trace: bool,
 }
 
 impl SessCfg {
@@ -69,6 +73,8 @@ impl SessCfg {
             shadow_mount: false,
             journal: false,
             tolerate_baseline_diags: false,
+            fail_writes: false,
+            trace: false,
         }
     }
     pub fn on(&self, p: &str) -> bool {
@@ -114,9 +120,12 @@ pub struct Counters {
     pub stats_checks: u64,
     pub writes_classified: u64,
     pub op_outcomes: BTreeMap<(String, &'static str), u64>,
+    pub total_dev_writes: u64,
+    pub readonly_exceptions: u64,
 }
 
 pub struct Outcome {
+    pub trace: Vec<String>,
     pub journal: Vec<JOp>,
     pub history: Vec<Op>,
     pub violation: Option<Violation>,
@@ -241,6 +250,7 @@ pub struct Sess<'c> {
     pub history: Vec<Op>,
     pub exhausted: bool,
     pub journal: Vec<JOp>,
+    pub trace: Vec<String>,
     /// node renamed/moved by the current op
     pub renamed: Option<usize>,
     /// structural diagnostics already present in a foreign image before the session touched it
@@ -572,9 +582,13 @@ pub fn run_session(cfg: &SessCfg, img0: &Image, vol_bytes: u64, cfg_class: u64, 
         journal: Vec::new(),
         renamed: None,
         baseline_diags: None,
+        trace: Vec::new(),
     };
     if cfg.journal {
         s.dev.set_logging(true, true);
+    }
+    if cfg.fail_writes {
+        s.dev.0.borrow_mut().fail_writes = true;
     }
     // learn what is already on the volume (foreign / pre-populated images)
     checks::seed_model_from_image(&mut s);
@@ -586,10 +600,12 @@ pub fn run_session(cfg: &SessCfg, img0: &Image, vol_bytes: u64, cfg_class: u64, 
         let mut empty = VecSource::new(Vec::new());
         run_epoch(&mut s, &mut empty, true);
     }
+    s.counters.total_dev_writes = s.dev.0.borrow().n_writes;
     Outcome {
         ops_run: s.pc,
         history: std::mem::take(&mut s.history),
         journal: std::mem::take(&mut s.journal),
+        trace: std::mem::take(&mut s.trace),
         final_img: s.dev.snapshot(),
         final_model_hash: s.model.state_hash(),
         violation: s.violation,
@@ -722,6 +738,9 @@ fn run_epoch(s: &mut Sess, src: &mut dyn OpSource, closing: bool) {
             s.violate("C04", "unmount-error", &op, ek.name(), format!("unmount returned {:?} without any injected fault", ek));
         }
         Ok(Ok(())) => {
+            if s.cfg.on("C13") {
+                checks::check_readonly_writes(s, &op, &log, true);
+            }
             if s.cfg.journal {
                 journal_push(s, op.show(), &log, Vec::new(), false);
             }
@@ -794,6 +813,12 @@ fn step<'f>(s: &mut Sess, fs: &'f Fs, hs: &mut Vec<Option<H<'f>>>, op: &Op) {
     let log = s.dev.take_log();
     s.last_clock = s.clock.take_log();
     s.counters.dev_events += log.len() as u64;
+    if s.cfg.on("C13") {
+        checks::check_readonly_writes(s, op, &log, false);
+        if s.violation.is_some() {
+            return;
+        }
+    }
     let out = match r {
         Ok(o) => o,
         Err(_) => {
@@ -805,6 +830,21 @@ fn step<'f>(s: &mut Sess, fs: &'f Fs, hs: &mut Vec<Option<H<'f>>>, op: &Op) {
         }
     };
     let ek = out.ek.unwrap_or(EK::Ok);
+    if s.cfg.trace {
+        let mut line = format!("{} => {} n={} data={:016x}", op.show(), ek.name(), out.n, Fnv::new().bytes(&out.data).get());
+        for l in &out.listing {
+            // only API that exists in every build: the long name units if any, the raw short name bytes
+            let ln = if l.has_lfn { crate::util::show_units(&l.name) } else { "-".to_string() };
+            line.push_str(&format!(" [{}|{}|{}|{}|{:#x}|{:?}]", ln, crate::util::hex(&l.short), l.is_dir, l.len, l.attr, (l.stamps.cdate, l.stamps.ctime, l.stamps.ctenth, l.stamps.adate, l.stamps.mdate, l.stamps.mtime)));
+        }
+        if matches!(op, Op::Stats) {
+            line.push_str(&format!(" stats={:?}", out.stats));
+        }
+        if matches!(op, Op::StatusFlags) {
+            line.push_str(&format!(" flags={:?}", out.flags));
+        }
+        s.trace.push(line);
+    }
     s.note(op, ek);
     if ek == EK::Io {
         let prop = primary_prop(s.cfg, op);
